@@ -35,6 +35,61 @@ def buffer_of(f, e, groups):
     return '?'
 
 
+def mode_key(a):
+    """a constant argument that selects a mode of a helper (`parse_many(input, true)`, `parse_many(input, Style::Inner)`)"""
+    a = strip(a)
+    if a[0] == 'int':
+        return ('true' if a[1] else 'false') if (len(a) > 2 and a[2] == 'bool') else str(a[1])
+    if a[0] == 'agg' and not a[2] and '::' in a[1]:
+        return a[1].split('::')[-1]
+    if a[0] == 'const' and re.match(r'^[\w:]+$', str(a[1])) and '::' in str(a[1]) and not str(a[1]).endswith(']'):
+        return str(a[1]).split('::')[-1]
+    return None
+
+
+def specialise(g):
+    """helpers with a mode parameter: a call with a constant mode stands for the helper's paths under that mode.  The call event
+    carries a digest of those paths instead of the constant, and the helper's own entry loses the mode tests — so that the
+    representation of the mode (bool, enum) does not matter while a swapped mode does."""
+    import hashlib
+    modal = {}
+    for name, paths in g.items():
+        ms = set(re.findall(r'mode\((\d+),([^()]*)\)', ' '.join(paths)))
+        if ms:
+            modal[name] = paths
+    strip_modes = lambda p_: re.sub(r' +', ' ', re.sub(r'mode\(\d+,[^()]*\) ?', '', p_)).strip()
+
+    def digest(h, consts):
+        sel = []
+        known = dict(c.split('=', 1) for c in consts.split(',') if '=' in c)
+        for p_ in modal[h]:
+            okp = True
+            for i_, lab in re.findall(r'mode\((\d+),([^()]*)\)', p_):
+                if i_ in known and known[i_] not in lab.split('|'):
+                    okp = False
+            if okp:
+                # (names of the functions it calls do not enter the digest: they are compared through their own entries)
+                sel.append(re.sub(r'(call|terminated)\(([^,()]*),[^,()]*(?:<[^()]*>[^,()]*)*', r'\1(\2,*', strip_modes(p_)))
+        return '@' + hashlib.sha1('\n'.join(sorted(set(sel))).encode()).hexdigest()[:10]
+    out = {}
+    for name, paths in g.items():
+        np_ = []
+        for p_ in paths:
+            def rep(m):
+                h, consts = m.group(2), m.group(3)
+                if h in modal and consts:
+                    return 'call(%s,%s,%s)' % (m.group(1), h, digest(h, consts))
+                return m.group(0)
+            q_ = re.sub(r'call\(([^,()]*),([^,()]*(?:<[^()]*>[^,()]*)*),([^()]*)\)', rep, p_)
+            # the same call inside a constructed value: helper(2=false)
+            for h in modal:
+                sh = short(h)
+                q_ = re.sub(re.escape(sh) + r'\((\d+=[\w|]+(?:,\d+=[\w|]+)*)\)', lambda m, h=h, sh=sh: '%s(%s)' % (sh, digest(h, m.group(1))), q_)
+            np_.append(q_)
+        out[name] = sorted(set(strip_modes(p_) for p_ in np_)) if name in modal else sorted(set(np_))
+    return out
+
+
 def events_of_block(P, f, bi, groups):
     t = f.term(bi)
     if t['k'] != 'Call' or not t.get('callee'):
@@ -81,7 +136,7 @@ def events_of_block(P, f, bi, groups):
         which = gp.split('::')[-1]
         return [] if which == 'lookahead1' else [(which, buffer_of(f, args[0], groups))]
     if p in P.fns and p.startswith('parser::') and 'kw::' not in p:
-        consts = [str(a[1]) for a in args if a[0] == 'int']
+        consts = ['%d=%s' % (i_ + 1, mode_key(a)) for i_, a in enumerate(args) if mode_key(a) is not None]
         bufs = [buffer_of(f, a, groups) for a in args if buffer_of(f, a, groups) != '?'][:1]
         return [('call', bufs[0] if bufs else '?', cidn(p), ','.join(consts))]
     if re.search(r'Vec::<T, A>::push$', p) and len(args) == 2:
@@ -111,6 +166,9 @@ def cons(e, f, d=0):
     k = e[0]
     if k == 'agg':
         nm = e[1].replace('std::result::Result::', '').replace('std::option::Option::', '').replace('grammar::', '')
+        if nm.startswith('parser::'):
+            # a type private to the parser: its own name (and variant), wherever in the module it is declared
+            nm = 'parser::' + '::'.join(re.sub(r'<[^<>]*>', '', nm).split('::')[-2:])
         return '%s{%s}' % (nm, ','.join('%s:%s' % (fl, C(v)) for fl, v in e[2]))
     if k == 'try':
         return C(e[1])
@@ -131,7 +189,7 @@ def cons(e, f, d=0):
                     return 'ParseBuffer' in f.local_ty(a[1]) or 'ParseStream' in f.local_ty(a[1])
                 return a[0] == 'upvar' or (a[0] == 'call' and ('ParseBuffer' in a[4] or re.search(r'parse_(braces|brackets|parens)$', a[3]) is not None)) or \
                     (a[0] == 'field' and is_buf(a[1])) or (a[0] == 'payload' and is_buf(a[1]))
-            return '%s(%s)' % (short(cidn(p)), ','.join(C(a) for a in e[2] if not is_buf(a)))
+            return '%s(%s)' % (short(cidn(p)), ','.join(('%d=%s' % (i_ + 1, mode_key(a)) if mode_key(a) is not None else C(a)) for i_, a in enumerate(e[2]) if not is_buf(a)))
         if re.search(r'Iterator::collect|FromIterator::from_iter|Vec::from_iter|convert::Into::into|convert::From::from|IntoIterator::into_iter', e[3]):
             return C(e[2][0]) if e[2] else '?'
         if re.search(r'Box::<T>::new$', p):
@@ -233,9 +291,36 @@ def grammar_of(P, f):
                 other = tm['otherwise']
                 if other not in lab:
                     lab[other] = 'yes' if 'no' in lab.values() else 'no'
+        mode = {}
+        if tm['k'] == 'SwitchInt':
+            cond = f.expr_of_operand(tm['discr'])
+            c0 = strip(cond)
+            neg = False
+            if c0[0] == 'un' and c0[1] == 'Not':
+                c0, neg = strip(c0[2]), True
+            inputs = f.raw.get('inputs') or []
+            is_mode_arg = lambda a_: a_[0] == 'arg' and 1 <= a_[1] <= len(inputs) and 'ParseBuffer' not in inputs[a_[1] - 1] and 'ParseStream' not in inputs[a_[1] - 1]
+            if is_mode_arg(c0) and tm['discr_ty'] == 'bool':
+                for v, tgt in tm['targets']:
+                    mode[tgt] = ('mode', c0[1], 'true' if (v != '0') != neg else 'false')
+                if tm['otherwise'] not in mode:
+                    have = {x_[2] for x_ in mode.values()}
+                    mode[tm['otherwise']] = ('mode', c0[1], 'false' if 'true' in have else 'true')
+            elif c0[0] == 'discr' and is_mode_arg(strip(c0[1])):
+                names = c0[2]
+                used = []
+                for v, tgt in tm['targets']:
+                    nm_ = names[int(v)] if int(v) < len(names) else str(v)
+                    used.append(nm_)
+                    mode[tgt] = ('mode', strip(c0[1])[1], nm_)
+                rest_ = [n_ for n_ in names if n_ not in used]
+                if tm['otherwise'] not in mode and rest_:
+                    mode[tm['otherwise']] = ('mode', strip(c0[1])[1], '|'.join(rest_))
         for s in succs:
             if s in lab:
                 acc2 = acc + [(lab[s],)]
+            elif s in mode:
+                acc2 = acc + [mode[s]]
             else:
                 acc2 = acc
             if (b, s) in back:
@@ -265,7 +350,7 @@ def extract(P):
     out = {}
     for f in parser_fns(P):
         out[cidn(f.id)] = grammar_of(P, f)
-    return out
+    return specialise(out)
 
 
 def canon_groups(p_):
@@ -401,23 +486,41 @@ def canonical(g):
     helpers = [n for n in g if not re.search(r'<impl syn::parse::Parse for [\w:]+>::parse$', n)]
 
     def forms(n):
-        segs = n.split('::')
-        out = {n, '::'.join(segs[-2:])}
+        # the full name and the `module::name` form used inside constructed values; `::` inside <..> does not separate segments
+        segs, depth, cur = [], 0, ''
+        for ch_ in re.split(r'(::|<|>)', n):
+            if ch_ == '<':
+                depth += 1
+            elif ch_ == '>':
+                depth -= 1
+            if ch_ == '::' and depth == 0:
+                segs.append(cur)
+                cur = ''
+            else:
+                cur += ch_
+        segs.append(cur)
+        out = {n, tok_name(n), short(n)}       # (events name functions through tok_name, constructed values through short)
+        if len(segs) >= 2 and not segs[-2].startswith('<'):
+            out.add('::'.join(segs[-2:]))
         return sorted(out, key=len, reverse=True)
+
+    def mentions(txt, m):
+        # a helper is mentioned where its name stands as a whole (not as the prefix of a function nested in it)
+        return any(re.search(re.escape(f_) + r'(?![\w:])', txt) for f_ in forms(m))
     hashes = {}
     pending = set(helpers)
     for _round in range(8):
         for n in sorted(pending):
             # callee helpers mentioned in n's paths (other than itself) must be hashed first
             txt = '\n'.join(g[n])
-            deps = [m for m in helpers if m != n and any(f_ in txt for f_ in forms(m))]
+            deps = [m for m in helpers if m != n and mentions(txt, m)]
             if any(m not in hashes for m in deps):
                 continue
             for m in sorted(deps, key=len, reverse=True):
                 for f_ in forms(m):
-                    txt = txt.replace(f_, '#' + hashes[m])
+                    txt = re.sub(re.escape(f_) + r'(?![\w:])', '#' + hashes[m], txt)
             for f_ in forms(n):
-                txt = txt.replace(f_, '#self')
+                txt = re.sub(re.escape(f_) + r'(?![\w:])', '#self', txt)
             hashes[n] = hashlib.sha1('\n'.join(sorted(txt.split('\n'))).encode()).hexdigest()[:10]
             pending.discard(n)
     for n in pending:       # mutual recursion among helpers: keep the name
@@ -428,7 +531,7 @@ def canonical(g):
         for p_ in paths:
             for m in sorted(helpers, key=len, reverse=True):
                 for f_ in forms(m):
-                    p_ = p_.replace(f_, '#self' if m == own else '#' + hashes[m])
+                    p_ = re.sub(re.escape(f_) + r'(?![\w:])', ('#self' if m == own else '#' + hashes[m]).replace('\\', '\\\\'), p_)
             out.append(p_)
         return sorted(out)
     prods = {n: rewrite(g[n]) for n in g if n not in helpers}
@@ -568,7 +671,7 @@ def run(ctx):
     # D3 peek/parse agreement
     bad = []
     npk = 0
-    for name, paths in g.items():
+    for name, paths in ctx.grammar.items():        # (the grammar as extracted, before helper names were canonicalised)
         for p in paths:
             evs = p.split(' ')
             for i, e in enumerate(evs):
